@@ -23,11 +23,12 @@ Definition trim_sp (s : bytes) : bytes := rev (drop_sp (rev (drop_sp s))).
 (* an expression the scanner resolves itself: no pipe, no call, no operator surrounded by spaces *)
 Definition simple_expr (e : bytes) : bool :=
   negb (mem_byte x7c e) && negb (mem_byte x28 e) && negb (mem_byte x20 e) && negb (mem_byte x3f e).
-(* the printed value: nil and unresolved print nothing; everything else fmt.Sprint, HTML-escaped
-   unless inside script/style *)
+(* the printed value: nil and unresolved print nothing; everything else fmt.Sprint.  The value goes
+   into the evaluated DOM raw: the serialiser is the single escaping point ([raw] is kept for the
+   script/style case, where the serialiser does not escape either) *)
 Definition print_value (raw : bool) (s : stack) (e : bytes) : bytes :=
   match resolve s e with
-  | Some v => if is_nil v then [] else if raw then sprint v else escape (sprint v)
+  | Some v => if is_nil v then [] else sprint v
   | None => []
   end.
 Fixpoint interp_go (fuel : nat) (raw : bool) (s : stack) (input : bytes) : option bytes :=
